@@ -419,6 +419,9 @@ func cmdCheck(args []string) int {
 				ok, out := nativeReplay(spec, dir, e, rp, v.Kind, v.Label)
 				if ok {
 					vo.Replayed = "reproduced natively"
+					if strings.HasPrefix(out, "native run failed assertion") {
+						vo.Replayed = "reproduced natively: " + out[:strings.IndexByte(out, '\n')]
+					}
 				} else {
 					confirmed = false
 					vo.Replayed = "NOT reproduced natively: " + tail(out, 600)
@@ -431,7 +434,7 @@ func cmdCheck(args []string) int {
 				violations++
 				exit = 1
 				fmt.Printf("VIOLATION property=%s replay=%s\n", spec.Property, rp)
-				fmt.Printf("  entry=%s kind=%s label=%s %s\n  inputs=%v\n", e.Name, v.Kind, v.Label, v.Msg, compactInputs(v.Inputs))
+				fmt.Printf("  entry=%s kind=%s label=%s %s\n  inputs=%v\n  %s\n", e.Name, v.Kind, v.Label, v.Msg, compactInputs(v.Inputs), vo.Replayed)
 				for _, s := range v.Stack {
 					fmt.Printf("    at %s\n", s)
 				}
@@ -676,7 +679,21 @@ func TestVerifReplay(t *testing.T) {
 	}
 	switch kind {
 	case "assert":
-		return strings.Contains(o, "VERIF-ASSERT-FAILED "+label), o
+		if strings.Contains(o, "VERIF-ASSERT-FAILED "+label) {
+			return true, o
+		}
+		// The engine stops a path at its first failed assertion and some observations exist only
+		// in the engine (recorded sleeps, the stub file system's list of opened paths). A native
+		// run of the same inputs that fails another assertion of the same harness is a
+		// reproduced violation of the property all the same; say which one.
+		if i := strings.Index(o, "VERIF-ASSERT-FAILED "); i >= 0 {
+			rest := o[i+len("VERIF-ASSERT-FAILED "):]
+			if j := strings.IndexByte(rest, '\n'); j >= 0 {
+				rest = rest[:j]
+			}
+			return true, "native run failed assertion \"" + rest + "\" (engine: \"" + label + "\")\n" + o
+		}
+		return false, o
 	case "panic":
 		return strings.Contains(o, "panic:") && !strings.Contains(o, "VERIF-PASSED"), o
 	case "deadlock":
